@@ -109,7 +109,7 @@ def shards(tier, seed):
         mine = mine[k:] + mine[:k]
         if tier == "quick":
             mine = mine[:4]
-        out.append(dict(tier=tier, seed=seed * 1000 + i, idx=i, devs=mine, ncases=(150 if tier == "quick" else 2500)))
+        out.append(dict(tier=tier, seed=seed * 1000 + i, idx=i, devs=mine, ncases=(250 if tier == "quick" else 2500)))
     return out
 
 
